@@ -99,6 +99,7 @@ struct Inner {
     l_running: bool,
     f_exit: bool,
     l_exit: bool,
+    failwait: bool,
     steals: u64,
     forced: u64,
     points: BTreeMap<&'static str, u64>,
@@ -139,6 +140,7 @@ fn sched() -> &'static Sched {
             l_running: false,
             f_exit: false,
             l_exit: false,
+            failwait: true,
             steals: 0,
             forced: 0,
             points: BTreeMap::new(),
@@ -158,7 +160,10 @@ impl Inner {
             "commit.stall_ok" => self.permits > 0,
             "commit.want_lock" => !self.mutex_held,
             "stall.wait" => self.epoch > a.reg_epoch,
-            "commit.published" => a.failed || self.done.contains(&a.my_seq),
+            // success and failure alike wait for the oneshot: the batch must have been dequeued and completed
+            // (`failwait=0`: do not assume that a failed commit waits — used when the translator could not
+            // confirm that shape in the sources)
+            "commit.published" => (a.failed && !self.failwait) || self.done.contains(&a.my_seq),
             "enq.spin" => self.clears > a.spin_clears,
             "apply.arena_full" | "close.tasks_stopped" => !self.actors.iter().any(|o| o.parked && !o.finished && o.last == "mem.insert"),
             "task.mem.wait" => self.f_permit,
@@ -251,7 +256,7 @@ impl Inner {
             }
             "enq.spin" => self.actors[i].spin_clears = self.clears,
             "deq.cleared" => self.clears += 1,
-            "task.wake_mem" => self.f_permit = true,
+            "task.wake_mem" | "task.mem.recheck" => self.f_permit = true,
             "task.mem.woken" => self.f_permit = false,
             "task.mem.running" => self.f_running = true,
             "task.mem.idle" => self.f_running = false,
@@ -666,6 +671,7 @@ pub fn run(params: &str, threads: &str) -> String {
         g.l_running = false;
         g.f_exit = false;
         g.l_exit = false;
+        g.failwait = geti("failwait", 1) != 0;
         g.steals = 0;
         g.forced = 0;
         g.points.clear();
